@@ -14,10 +14,13 @@ for d in sorted(os.listdir(vlib.OCAML)):
         vlib.build_driver(d)
 try:
     vlib.build_grog()
-    for h in sorted(os.listdir(vlib.HARNESS)):
-        if h != "wire" and os.path.isdir(os.path.join(vlib.HARNESS, h)) and os.path.exists(os.path.join(vlib.HARNESS, h, "main.go")):
-            vlib.build_harness(h)
 except Exception as e:
-    print("warm-up build failed (checks will retry):", e)
+    print("warm-up build of grog failed (checks will retry):", str(e)[-300:])
+for h in sorted(os.listdir(vlib.HARNESS)):
+    if h != "wire" and os.path.exists(os.path.join(vlib.HARNESS, h, "main.go")):
+        try:
+            vlib.build_harness(h)
+        except Exception as e:
+            print("warm-up build of harness %s skipped: %s" % (h, str(e)[-200:].replace("\n", " ")))
 PY
 echo setup-ok
